@@ -16,6 +16,8 @@ use std::sync::{Arc, Mutex};
 pub enum Ev {
     Reg(u64, usize),
     Ack(u64, usize),
+    /// the node wins an election (a join, a forced election, a fail-over): nothing about who still owes an ack changes
+    Win,
 }
 
 const NODES: [&str; 4] = ["n-a:1", "n-b:2", "n-c:3", "foreign:9"];
@@ -41,6 +43,13 @@ fn replay(evs: &[Ev], classes: &mut BTreeSet<String>) -> Option<(serde_json::Val
     for (i, e) in evs.iter().enumerate() {
         let class;
         match e {
+            Ev::Win => {
+                class = "node-wins-an-election";
+                if let Err(p) = std::panic::catch_unwind(std::panic::AssertUnwindSafe(|| nundb::election_ops::election_win(&dbs))) {
+                    return Some((json!({"check": "pending", "problem": "panic", "event": class}), json!({"events": format!("{:?}", evs), "at": i, "msg": panic_msg(&p)})));
+                }
+                trace.push(json!([format!("{:?}", e), "won"]));
+            }
             Ev::Reg(op, n) => {
                 let m = model.entry(*op).or_default();
                 if m.targeted.contains(n) {
@@ -142,6 +151,7 @@ fn alphabet() -> Vec<Ev> {
         }
     }
     a.push(Ev::Ack(7, 0)); // unknown operation
+    a.push(Ev::Win);
     a
 }
 
